@@ -314,6 +314,15 @@ func (e *sysEnv) sysStep(ctx *core.Context, op map[string]interface{}) map[strin
 			return errR(err)
 		}
 		return okR(true)
+	case "setReadOnly":
+		// the only way to make a location read-only at this level: the flag lives on the *Location the System hands out
+		loc, err := s.GetLocation(ctx, name)
+		if err != nil {
+			return errR(err)
+		}
+		v, _ := op["value"].(bool)
+		loc.SetReadOnly(ctx, v)
+		return okR(true)
 	case "peek":
 		_, err := s.GetLocation(ctx, name)
 		if err != nil {
